@@ -238,6 +238,9 @@ class _KexDHBase(Kex):
         k = self._compute_client_shared()
         h = self._compute_hash(key_data, k)
 
+        if not self.check_host_key_sig_alg(sig):
+            raise KeyExchangeFailed('Host key signature algorithm mismatch')
+
         if not key.verify(h, sig):
             raise KeyExchangeFailed('Key exchange hash mismatch')
 
